@@ -89,7 +89,22 @@ def _classify_local(body, du, d, depth):
                 results.append({'kind': 'passed', 'success_block': None, 'via': bid, 'to': n})
         elif kind == 'stmt':
             if obj.rhs and obj.rhs.startswith('discriminant('):
-                results.append({'kind': 'match', 'success_block': None, 'via': bid})
+                # `match r { Ok(..) => .., Err(..) => .. }`: the Ok edge is discriminant 0 for a
+                # Result (Some is 1 for an Option)
+                succ = None
+                ty = body.local_type(d) or ''
+                want = '0' if 'result::Result<' in ty else ('1' if 'option::Option<' in ty else None)
+                dl = base_local(obj.lhs)
+                for (b3, k3, o3) in du.uses.get(dl, []):
+                    if k3 == 'term' and o3.kind == 'switch' and want is not None:
+                        for (val, tgt) in o3.targets:
+                            if val == want:
+                                succ = tgt
+                        if succ is None and want == '0':
+                            oth = [tgt for (val, tgt) in o3.targets if val == 'otherwise']
+                            if oth and any(val == '1' for (val, _t) in o3.targets):
+                                succ = oth[0]
+                results.append({'kind': 'match', 'success_block': succ, 'via': bid})
             elif obj.kind == 'assign':
                 tgt = base_local(obj.lhs)
                 if tgt == 0:
@@ -144,6 +159,9 @@ def err_return_blocks(body):
 
 
 # ---------------------------------------------------------------------------- worlds
+KEY_TYPES = {}
+
+
 def option_guard_worlds(body, du, max_keys=2):
     """Correlated `Option` guards.  A guard key is the access path of the receiver of a pure
     `Option::as_ref`/`is_some`/`is_none` call rooted at an argument with field steps only (an
@@ -166,15 +184,22 @@ def option_guard_worlds(body, du, max_keys=2):
         od = du.single_def(opt)
         if od and od[1] == 'term' and norm_callee(od[2].func).endswith('Option::as_ref'):
             root, steps = du.access_path(od[2].args[0])
-            if root[0] == 'arg' and steps:
-                key = 'arg%d.%s' % (root[1], '.'.join(map(str, steps)))
-        elif od is not None:
-            key = 'local%d' % opt
+        else:
+            root, steps = du.access_path('copy _%d' % opt)
+        if root[0] == 'arg' and steps:
+            key = 'arg%d.%s' % (root[1], '.'.join(map(str, steps)))
+        elif root[0] == 'local':
+            # a local Option: usable as a guard key only if it is assigned exactly once
+            if len(du.defs.get(root[1], [])) == 1:
+                key = 'local%d%s' % (root[1], ''.join('.%d' % x for x in steps))
+        elif root[0] == 'call':
+            key = 'local@bb%d%s' % (root[2], ''.join('.%d' % x for x in steps))
         if key is None:
             continue
         some_t = [t for (v, t) in blk.term.targets if v == '1']
         none_t = [t for (v, t) in blk.term.targets if v in ('0', 'otherwise')]
         guards.setdefault(key, []).append((bid, some_t, none_t))
+        KEY_TYPES[(body.name, key)] = ty
     keys = [k for k, v in guards.items() if k.startswith('arg') or len(v) >= 1]
     keys = sorted(keys)[:max_keys + 4]
     worlds = [('all-paths', set(), {})]
